@@ -19,7 +19,7 @@ ASSUMED = [
     {"what": "opaque external types", "keys": ["pub struct Opaque"]},
     {"what": "sqlparser AST shims with the real names: ast::Ident {value, quote_style}, ast::Expr {Identifier, CompoundIdentifier, Other}, ast::SelectItem "
              "{UnnamedExpr, ExprWithAlias, QualifiedWildcard, Wildcard}; format!(..) / \"..\".into() / .to_string() error texts are fmt_msg()",
-     "keys": ["pub struct Ident", "pub enum Expr", "pub enum SelectItem", "fn fmt_msg"]},
+     "keys": ["pub struct Ident", "pub enum Expr", "pub enum SelectItem", "fn fmt_msg", "spec fn rendered", "fn to_string"]},
     {"what": "iterator chains are shims with the documented meaning of the std / itertools adapters: `.into_iter().flatten().collect::<BTreeSet<String>>()` followed by "
              "iteration = the names in the set's own (alphabetical) order, each once (sorted_dedup, uninterpreted); `.into_iter().flatten().unique().collect::<Vec<String>>()` = "
              "the names in order of first occurrence, each once (dedup_first); `columns.into_iter().filter(|c| matches!(c, Single(_))).chain(names.into_iter().map(|n| "
@@ -42,6 +42,11 @@ verus! {
 pub mod ast {
     use super::*;
     pub struct Ident { pub value: String, pub quote_style: Option<char> }
+    // sqlparser's Display for Ident (read in the pinned source): the bare value without a quote style, otherwise the value wrapped in the quote character - NOT the name
+    pub uninterp spec fn rendered(i: Ident) -> String;
+    impl Ident {
+        #[verifier::external_body] pub fn to_string(&self) -> (r: String) ensures r == rendered(*self), self.quote_style is None ==> r == self.value, { unimplemented!() }
+    }
     pub enum Expr { Identifier(Ident), CompoundIdentifier(Vec<Ident>), Other(OpaqueT) }
     pub enum SelectItem { UnnamedExpr(Expr), ExprWithAlias { expr: Expr, alias: Ident }, QualifiedWildcard(OpaqueT, OpaqueT), Wildcard(OpaqueT) }
 }
